@@ -1,6 +1,6 @@
 (* C15, converse direction: integer and double constants read backwards. *)
 From PVIdl Require Import Comb Ast Parser Print Proofs.Total Proofs.RoundTok Proofs.RoundPath Proofs.RoundAnn Proofs.RoundTy
-  Proofs.RoundKit Proofs.RoundNum Proofs.InvKit Proofs.InvTok.
+  Proofs.RoundKit Proofs.Lex Proofs.RoundNum Proofs.InvKit Proofs.InvTok.
 From Coq Require Import ZifyN ZifyNat ZifyBool.
 From Coq Require String.
 Import String.StringSyntax.
@@ -21,24 +21,86 @@ Proof.
   rewrite IHn. reflexivity.
 Qed.
 
+(* ---------- what does not fail ---------- *)
+Definition nperr {A} (r : pres A) : Prop := ~ is_perr r.
+
+(* the hexadecimal alternative reads "0x" and hexadecimal digits within i64 *)
+Lemma hex_continues_ok ds r : is_zero ds = true -> hex_continues r = true -> nperr (int_hex (ds ++ r)).
+Proof.
+  intros Hz Hh. destruct ds as [|d [|? ?]]; try discriminate. cbn [is_zero] in Hz. apply byte_dec_bl in Hz. subst d.
+  destruct r as [|b r]; [discriminate|]. cbn [hex_continues] in Hh. apply andb_prop in Hh. destruct Hh as [Hb Hh].
+  apply byte_dec_bl in Hb. subst b. apply andb_prop in Hh. destruct Hh as [Hn Hv].
+  unfold int_hex. change ([x30] ++ x78 :: r) with (sym_int_hex ++ r). rewrite tag_ok. cbn [pbind].
+  unfold map_res, hex_digit1, span1. destruct (span_run is_hexdigit r) as [r' [-> _]].
+  destruct (run is_hexdigit r) as [|h hs]; [discriminate|]. cbn [is_nil].
+  rewrite parse_unsigned_value by (try lia; unfold i64_max; lia). intros C. exact C.
+Qed.
+
+Lemma many0_count_minus : forall fuel n t, hd_is (fun b => Byte.eqb b x2d) t = false ->
+  many0_count fuel (tag sym_int_minus) (minus_run n t) = POk t n \/ many0_count fuel (tag sym_int_minus) (minus_run n t) = PFuel FLoop.
+Proof.
+  induction fuel as [|f IH]; intros n t Ht; [right; reflexivity|]. destruct n as [|n]; cbn [minus_run many0_count].
+  - left. assert (E : is_perr (tag sym_int_minus t)).
+    { destruct t as [|b r]; [exact I|]. apply tag_hd_ne. exact Ht. }
+    destruct (tag sym_int_minus t); cbn in E; try contradiction. reflexivity.
+  - change (x2d :: minus_run n t) with (sym_int_minus ++ minus_run n t). rewrite tag_ok.
+    rewrite (same_len_app_false sym_int_minus) by discriminate.
+    destruct (IH n t Ht) as [-> | ->]; [left|right]; reflexivity.
+Qed.
+
+(* where an integer constant starts (Print.int_starts), the parser does not answer Error *)
+Lemma int_starts_nperr lf k : int_starts k = true -> nperr (p_int_constant lf k).
+Proof.
+  intros Hs. unfold int_starts in Hs. destruct (skip_minus_spec k) as [n [Ek Hm]]. set (t := skip_minus k) in *.
+  apply andb_prop in Hs. destruct Hs as [Hne Hv].
+  rewrite p_int_eq, Ek. destruct (many0_count_minus lf n t Hm) as [-> | ->]; [|intros C; exact C]. cbn [pbind].
+  destruct (span_run is_digit t) as [r [Es [Et [Hr Hd]]]].
+  assert (Ed : map_res digit1 (parse_unsigned 10 i64_max) t = POk r (digits_value 10 (run is_digit t))).
+  { unfold map_res, digit1, span1. rewrite Es. destruct (run is_digit t); [discriminate|]. cbn [is_nil].
+    rewrite parse_unsigned_value by (try lia; unfold i64_max; lia). reflexivity. }
+  unfold int_alts. set (dec := map_res digit1 (parse_unsigned 10 i64_max)) in *. cbn [alt]. unfold int_hex at 1.
+  destruct (tag sym_int_hex t) as [i1 a| | | |] eqn:E1; cbn [pbind].
+  - unfold map_res, hex_digit1, span1. destruct (span is_hexdigit i1) as [hs r2]. destruct (is_nil hs).
+    + rewrite Ed. intros C; exact C.
+    + destruct (parse_unsigned 16 i64_max hs); [intros C; exact C|]. rewrite Ed. intros C; exact C.
+  - rewrite Ed. intros C; exact C.
+  - unfold tag in E1. destruct (strip_prefix sym_int_hex t); discriminate.
+  - unfold tag in E1. destruct (strip_prefix sym_int_hex t); discriminate.
+  - unfold tag in E1. destruct (strip_prefix sym_int_hex t); discriminate.
+Qed.
+
+(* where an exponent starts, the exponent parser does not answer Error *)
+Lemma exp_starts_nperr lf e0 k : e0 = [x65] -> exp_starts k = true -> nperr (p_exponent lf e0 k).
+Proof.
+  intros -> Hs. destruct k as [|b k]; [discriminate|]. cbn [exp_starts] in Hs. apply andb_prop in Hs. destruct Hs as [Hb Hs].
+  destruct (e_cases b Hb) as [u ->]. unfold p_exponent. rewrite (tag_nc_e [x65] u k eq_refl). cbn [pbind].
+  pose proof (int_starts_nperr lf k Hs) as N. destruct (p_int_constant lf k); cbn [pbind]; intros C; try exact C. apply N. exact I.
+Qed.
+Lemma exp_err_starts lf e0 k : e0 = [x65] -> is_perr (p_exponent lf e0 k) -> exp_starts k = false.
+Proof. intros E0 H. destruct (exp_starts k) eqn:E; [|reflexivity]. exfalso. exact (exp_starts_nperr lf e0 k E0 E H). Qed.
+
 Theorem int_inv lf i r v : p_int_constant lf i = POk r v ->
   exists c, i = pr_int c r /\ erase_int c = v /\ wf_int c = true /\
-            hd_sat (fun b => negb (if ci_hex c then is_hexdigit b else is_digit b)) r = true.
+            hd_sat (fun b => negb (if ci_hex c then is_hexdigit b else is_digit b)) r = true /\ int_stops c r = true.
 Proof.
   rewrite p_int_eq. intros H. binv H. inversion H; subst.
   apply many0_count_tag_inv in E. destruct E as [-> _]. rewrite iter_minus.
-  unfold int_alts in E0. apply alt_cons_inv in E0. destruct E0 as [E0|[_ E0]].
+  unfold int_alts in E0. apply alt_cons_inv in E0. destruct E0 as [E0|[Ehex E0]].
   - unfold int_hex in E0. apply pbind_ok in E0. destruct E0 as [i1 [t [E1 E0]]]. apply tag_inv in E1. destruct E1 as [-> _].
     apply map_res_inv in E0. destruct E0 as [ds [E0 P]]. unfold hex_digit1 in E0. apply span1_inv in E0.
     destruct E0 as [-> [Hne [Hd Hr]]]. destruct (parse_unsigned_inv 16 i64_max ds a0 ltac:(lia) ltac:(unfold i64_max; lia) P) as [-> Hv].
     exists (mkCInt a true ds). unfold pr_int, erase_int, int_abs, wf_int. cbn [ci_minus ci_hex ci_digits].
-    change sym_int_hex with (txt "0x"). repeat split; auto. rewrite Hd. destruct ds; [contradiction|]. cbn [is_nil negb andb].
-    unfold i64_max in Hv. apply Z.leb_le. exact Hv.
+    change sym_int_hex with (txt "0x"). repeat split; auto.
+    + rewrite Hd. destruct ds; [contradiction|]. cbn [is_nil negb andb]. unfold i64_max in Hv. apply Z.leb_le. exact Hv.
+    + unfold int_stops. cbn [ci_hex]. now rewrite (hd_sat_is _ _ Hr).
   - apply alt_one_inv in E0. apply map_res_inv in E0. destruct E0 as [ds [E0 P]]. unfold digit1 in E0. apply span1_inv in E0.
     destruct E0 as [-> [Hne [Hd Hr]]]. destruct (parse_unsigned_inv 10 i64_max ds a0 ltac:(lia) ltac:(unfold i64_max; lia) P) as [-> Hv].
     exists (mkCInt a false ds). unfold pr_int, erase_int, int_abs, wf_int. cbn [ci_minus ci_hex ci_digits app].
-    repeat split; auto. rewrite Hd. destruct ds; [contradiction|]. cbn [is_nil negb andb].
-    unfold i64_max in Hv. apply Z.leb_le. exact Hv.
+    repeat split; auto.
+    + rewrite Hd. destruct ds; [contradiction|]. cbn [is_nil negb andb]. unfold i64_max in Hv. apply Z.leb_le. exact Hv.
+    + unfold int_stops. cbn [ci_hex ci_digits]. rewrite (hd_sat_is _ _ Hr). cbn [negb andb].
+      destruct (is_zero ds && hex_continues r) eqn:Ez; [|reflexivity]. exfalso. apply andb_prop in Ez. destruct Ez as [Ez Eh].
+      exact (hex_continues_ok ds r Ez Eh Ehex).
 Qed.
 
 Lemma tag_nc_e_inv e i r m : e = [x65] -> tag_no_case e i = POk r m -> exists u, i = ebyte u :: r.
@@ -52,53 +114,71 @@ Qed.
 Section Dbl.
 Variable lf : nat.
 
-Lemma exp_inv e0 i r u : e0 = [x65] -> p_exponent lf e0 i = POk r u -> exists ce, i = pr_exp ce r /\ wf_exp ce = true.
+Lemma exp_inv e0 i r u : e0 = [x65] -> p_exponent lf e0 i = POk r u ->
+  exists ce, i = pr_exp ce r /\ wf_exp ce = true /\ int_stops (ce_int ce) r = true.
 Proof.
   intros E0 H. unfold p_exponent in H. binv H. destruct (tag_nc_e_inv _ _ _ _ E0 E) as [up ->].
-  destruct (int_inv _ _ _ _ E1) as [ci [-> [_ [Wi _]]]]. inversion H; subst. exists (mkCExp up ci). unfold pr_exp, wf_exp. cbn [ce_upper ce_int].
-  split; [destruct up; reflexivity|exact Wi].
+  destruct (int_inv _ _ _ _ E1) as [ci [-> [_ [Wi [_ Si]]]]]. inversion H; subst. exists (mkCExp up ci). unfold pr_exp, wf_exp. cbn [ce_upper ce_int].
+  split; [destruct up; reflexivity|]. split; [exact Wi|exact Si].
 Qed.
 
-Lemma oexp_inv e0 i r o : e0 = [x65] -> opt (p_exponent lf e0) i = POk r o -> exists ce, i = pr_oexp ce r /\ wf_oexp ce = true.
+Lemma oexp_inv e0 i r o : e0 = [x65] -> opt (p_exponent lf e0) i = POk r o ->
+  exists ce, i = pr_oexp ce r /\ wf_oexp ce = true /\ oexp_stops ce r = true.
 Proof.
-  intros E0 H. apply opt_inv in H. destruct H as [[u [-> H]]|[-> [-> _]]].
-  - destruct (exp_inv _ _ _ _ E0 H) as [ce [-> W]]. exists (Some ce). auto.
-  - exists None. auto.
+  intros E0 H. apply opt_inv in H. destruct H as [[u [-> H]]|[-> [-> Herr]]].
+  - destruct (exp_inv _ _ _ _ E0 H) as [ce [-> [W Si]]]. exists (Some ce). auto.
+  - exists None. cbn [pr_oexp wf_oexp oexp_stops]. repeat split. now rewrite (exp_err_starts lf e0 i E0 Herr).
 Qed.
 
-Lemma digit1_inv i r ds : digit1 i = POk r ds -> i = ds ++ r /\ ds <> [] /\ is_digits ds = true.
-Proof. unfold digit1. intros H. apply span1_inv in H. tauto. Qed.
+Lemma digit1_inv i r ds : digit1 i = POk r ds -> i = ds ++ r /\ ds <> [] /\ is_digits ds = true /\ hd_is is_digit r = false.
+Proof. unfold digit1. intros H. apply span1_inv in H. destruct H as [H1 [H2 [H3 H4]]]. repeat split; auto. now apply hd_sat_is. Qed.
 
-Lemma odigit1_inv i r o : opt digit1 i = POk r o -> exists ds, i = ds ++ r /\ is_digits ds = true /\ (o = None -> ds = []).
+Lemma digit1_err_hd i : is_perr (digit1 i) -> hd_is is_digit i = false.
 Proof.
-  intros H. apply opt_inv in H. destruct H as [[ds [-> H]]|[-> [-> _]]].
-  - destruct (digit1_inv _ _ _ H) as [-> [_ Hd]]. exists ds. repeat split; auto. discriminate.
-  - exists []. auto.
+  unfold digit1, span1. destruct i as [|b i]; [reflexivity|]. cbn [span hd_is]. destruct (is_digit b); [|reflexivity].
+  destruct (span is_digit i). cbn [is_nil]. intros C. contradiction.
 Qed.
 
-Lemma dbody_inv i r u : alt (dbl_alts lf) i = POk r u -> exists b, i = pr_dbody b r /\ wf_dbody b = true.
+Lemma odigit1_inv i r o : opt digit1 i = POk r o ->
+  exists ds, i = ds ++ r /\ is_digits ds = true /\ (o = None -> ds = []) /\ hd_is is_digit r = false.
+Proof.
+  intros H. apply opt_inv in H. destruct H as [[ds [-> H]]|[-> [-> Herr]]].
+  - destruct (digit1_inv _ _ _ H) as [-> [_ [Hd Hr]]]. exists ds. repeat split; auto. discriminate.
+  - exists []. repeat split; auto. now apply digit1_err_hd.
+Qed.
+
+Lemma oexp_stops_body ce r : hd_is is_digit (pr_oexp ce r) = false -> oexp_stops ce r = true ->
+  match ce with None => negb (hd_is is_digit r) && negb (exp_starts r) | Some e => int_stops (ce_int e) r end = true.
+Proof. destruct ce as [e|]; cbn [pr_oexp oexp_stops]; intros H1 H2; [exact H2|]. now rewrite H1, H2. Qed.
+
+Lemma dbody_inv i r u : alt (dbl_alts lf) i = POk r u -> exists b, i = pr_dbody b r /\ wf_dbody b = true /\ dbody_stops b r = true.
 Proof.
   unfold dbl_alts. intros H. apply alt_cons_inv in H. destruct H as [H|[_ H]]; [|apply alt_cons_inv in H; destruct H as [H|[_ H]]].
-  - unfold dbl_a in H. binv H. destruct (digit1_inv _ _ _ E) as [-> [Hne Hd]]. apply tag_inv in E0. destruct E0 as [-> _].
-    destruct (odigit1_inv _ _ _ E1) as [fp [-> [Hf _]]]. destruct (oexp_inv _ _ _ _ eq_refl E2) as [ce [-> We]]. inversion H; subst.
-    exists (DBodyA a fp ce). cbn [pr_dbody wf_dbody]. split; [reflexivity|]. rewrite Hd, Hf, We. destruct a; [contradiction|reflexivity].
-  - unfold dbl_b in H. binv H. destruct (odigit1_inv _ _ _ E) as [ip [-> [Hi Hn]]]. apply tag_inv in E0. destruct E0 as [-> _].
-    destruct (digit1_inv _ _ _ E1) as [-> [Hne Hd]]. destruct (oexp_inv _ _ _ _ eq_refl E2) as [ce [-> We]]. inversion H; subst.
+  - unfold dbl_a in H. binv H. destruct (digit1_inv _ _ _ E) as [-> [Hne [Hd _]]]. apply tag_inv in E0. destruct E0 as [-> _].
+    destruct (odigit1_inv _ _ _ E1) as [fp [-> [Hf [_ Hr]]]]. destruct (oexp_inv _ _ _ _ eq_refl E2) as [ce [-> [We Se]]]. inversion H; subst.
+    exists (DBodyA a fp ce). cbn [pr_dbody wf_dbody dbody_stops]. split; [reflexivity|]. split.
+    + rewrite Hd, Hf, We. destruct a; [contradiction|reflexivity].
+    + pose proof (oexp_stops_body ce r Hr Se) as B. destruct ce; exact B.
+  - unfold dbl_b in H. binv H. destruct (odigit1_inv _ _ _ E) as [ip [-> [Hi [Hn _]]]]. apply tag_inv in E0. destruct E0 as [-> _].
+    destruct (digit1_inv _ _ _ E1) as [-> [Hne [Hd Hr]]]. destruct (oexp_inv _ _ _ _ eq_refl E2) as [ce [-> [We Se]]]. inversion H; subst.
+    pose proof (oexp_stops_body ce r Hr Se) as B.
     destruct ip as [|d0 ip].
-    + exists (DBodyB a1 ce). cbn [pr_dbody wf_dbody app]. split; [reflexivity|]. rewrite Hd, We. destruct a1; [contradiction|reflexivity].
+    + exists (DBodyB a1 ce). cbn [pr_dbody wf_dbody app dbody_stops]. split; [reflexivity|]. split; [|destruct ce; exact B].
+      rewrite Hd, We. destruct a1; [contradiction|reflexivity].
     + (* digits before the dot: the first alternative would have read them -- the same text is also of the first form *)
-      exists (DBodyA (d0 :: ip) a1 ce). cbn [pr_dbody wf_dbody]. split; [reflexivity|]. now rewrite Hi, Hd, We.
-  - apply alt_one_inv in H. unfold dbl_c in H. binv H. destruct (digit1_inv _ _ _ E) as [-> [Hne Hd]].
-    destruct (tag_nc_e_inv _ _ _ _ eq_refl E0) as [up ->]. destruct (int_inv _ _ _ _ E1) as [ci [-> [_ [Wi _]]]]. inversion H; subst.
-    exists (DBodyC a (mkCExp up ci)). cbn [pr_dbody wf_dbody]. unfold pr_exp, wf_exp. cbn [ce_upper ce_int].
-    split; [destruct up; reflexivity|]. rewrite Hd, Wi. destruct a; [contradiction|reflexivity].
+      exists (DBodyA (d0 :: ip) a1 ce). cbn [pr_dbody wf_dbody dbody_stops]. split; [reflexivity|]. split; [now rewrite Hi, Hd, We|destruct ce; exact B].
+  - apply alt_one_inv in H. unfold dbl_c in H. binv H. destruct (digit1_inv _ _ _ E) as [-> [Hne [Hd _]]].
+    destruct (tag_nc_e_inv _ _ _ _ eq_refl E0) as [up ->]. destruct (int_inv _ _ _ _ E1) as [ci [-> [_ [Wi [_ Si]]]]]. inversion H; subst.
+    exists (DBodyC a (mkCExp up ci)). cbn [pr_dbody wf_dbody dbody_stops]. unfold pr_exp, wf_exp. cbn [ce_upper ce_int].
+    split; [destruct up; reflexivity|]. split; [|exact Si]. rewrite Hd, Wi. destruct a; [contradiction|reflexivity].
 Qed.
 
-Theorem dbl_inv i r s : p_double_constant lf i = POk r s -> exists d, i = pr_dbl d r /\ erase_dbl d = s /\ wf_dbl d = true.
+Theorem dbl_inv i r s : p_double_constant lf i = POk r s ->
+  exists d, i = pr_dbl d r /\ erase_dbl d = s /\ wf_dbl d = true /\ dbl_stops d r = true.
 Proof.
   rewrite p_dbl_eq. intros H. apply map_res_inv in H. destruct H as [s' [H Es]]. inversion Es; subst s'.
   apply recognize_inv in H. destruct H as [u [H ->]]. unfold dbl_inner in H. binv H.
-  destruct (dbody_inv _ _ _ H) as [b [-> Wb]].
+  destruct (dbody_inv _ _ _ H) as [b [-> [Wb Sb]]].
   assert (Em : exists m : bool, i = (if m then [x2d] else []) ++ i0).
   { apply opt_inv in E. destruct E as [[t [-> E]]|[-> [-> _]]]; [apply tag_inv in E; destruct E as [-> _]; exists true|exists false]; reflexivity. }
   assert (Ep : exists p : bool, i0 = (if p then [x2b] else []) ++ pr_dbody b r).
@@ -106,7 +186,7 @@ Proof.
   destruct Em as [m ->]. destruct Ep as [p ->].
   exists (mkCDbl m p b). unfold erase_dbl, wf_dbl. cbn [cd_body].
   assert (Epr : (if m then [x2d] else []) ++ (if p then [x2b] else []) ++ pr_dbody b r = pr_dbl (mkCDbl m p b) r) by reflexivity.
-  rewrite Epr. split; [reflexivity|]. split; [|exact Wb].
+  rewrite Epr. split; [reflexivity|]. split; [|split; [exact Wb|exact Sb]].
   rewrite (pr_dbl_app (mkCDbl m p b) r) at 1. now rewrite consumed_app.
 Qed.
 
